@@ -165,6 +165,9 @@ def abtest(ctx) -> None:
     imp = next((s for s in core.walk_local(init.node) if isinstance(s, ast.Assign) and core.src(s.targets[0]) == 'implicit'), None)
     oki = imp is not None and core.src(imp.value).replace(' ', '') == '(1-explicit)/missingifexplicit<1elseexplicit/len(targets)'
     ctx.check(oki, 'C17.abtest', init, 'an omitted target is the complement to 1 shared by the omitted variants (fractions) or the mean of the provided integer weights (sum / number of provided targets) as documented', imp or init.node, key='init:implicit-weight')
+    ctx.check('missing = sum((1 for v in variants if not v.target))' in text, 'C17.abtest', init, 'the omitted targets are counted one per variant', init.node, key='init:missing-count')
+    gen = prog.func('forml.application._descriptor:Generic.__init__')
+    ctx.check(any(core.src(a.value) == 'selector or _strategy.Latest(project=name)' for a in core.walk_local(gen.node) if isinstance(a, (ast.Assign, ast.AnnAssign)) and a.value is not None and core.src(a.target if isinstance(a, ast.AnnAssign) else a.targets[0]) == 'self._strategy'), 'C17.abtest', gen, 'a generic application uses the given selector, else the latest strategy of its own project', gen.node, key='generic:strategy')
     ctx.check('len(set(variants)) != len(variants)' in text and 'raise ValueError' in text, 'C17.abtest', init, 'duplicate variants are rejected', init.node, key='init:exclusive')
     ctx.check('targets = [v.target or implicit for v in variants]' in text, 'C17.abtest', init, 'omitted targets are filled position-wise', init.node, key='init:implicit')
     # builder: an omitted project/release of a further variant is inherited from the previous one; a given one wins
